@@ -175,8 +175,9 @@ pub fn build_s(cx: &Ctx, stmt: &Stmt, t: &Typed) -> Result<Built, String> {
     cb.enable_recompose::<F>(generate_recompose_trace::<F, Challenge>);
 
     // Allocation order == public input order (see `pack`).
-    let ctx_t: Vec<Target> =
-        (0..cx.ctx_coms.len() * DIGEST_ELEMS).map(|_| cb.public_input()).collect();
+    // one target per packed value of the context commitments (a cap has 2^cap_height digests)
+    let n_ctx: usize = cx.ctx_coms.iter().map(|c| <ComT as Recursive<Challenge>>::get_values(c).len()).sum();
+    let ctx_t: Vec<Target> = (0..n_ctx).map(|_| cb.public_input()).collect();
     let com_t: Vec<ComT> =
         t.coms.iter().map(|c| <ComT as Recursive<Challenge>>::new(&mut cb, c)).collect();
     let claimed_t: Vec<Vec<Vec<Vec<Target>>>> = t
